@@ -270,6 +270,13 @@ func (e *FuncEnc) dynamicCall(in ssa.Instruction, name, callee, calleeSort strin
 	default:
 		e.appendEvent(name, all, sorts, "true")
 		e.havocAll(e.cur)
+		if strings.HasPrefix(name, "func:") {
+			// a function value whose origin the encoder could not trace (loaded
+			// from a table, passed in): its body is unknown here, everything it
+			// could touch is havocked. Sound, but obligations that depend on what
+			// the callee does cannot be decided.
+			e.Imprecise = append(e.Imprecise, "call of a function value of untraced origin ("+strings.TrimPrefix(name, "func:")+") is havocked")
+		}
 	}
 	// results: function of (callee, args, position in trace) so that they can
 	// be named by contracts
@@ -580,9 +587,7 @@ func (e *FuncEnc) encodeBuiltin(in ssa.Instruction, b *ssa.Builtin, c *ssa.CallC
 			}
 		case *types.Map:
 			_, hk, _, hs, ks, _ := e.mapKeys(t)
-			f := e.D.UF("maplen_"+mangle(ks), []string{fmt.Sprintf("(Array %s Bool)", ks)}, "Int")
-			e.D.Axiom("maplen_"+mangle(ks), fmt.Sprintf("(forall ((a (Array %s Bool))) (! (>= (%s a) 0) :pattern ((%s a))))", ks, f, f))
-			e.D.Axiom("maplen0_"+mangle(ks), fmt.Sprintf("(= (%s ((as const (Array %s Bool)) false)) 0)", f, ks))
+			f := e.D.MapLen(ks)
 			v := sx(f, sx("select", e.heapName(e.cur, hk, hs), args[0]))
 			e.val[res] = e.define("len", "Int", ite(eq(args[0], "0"), "0", v))
 		case *types.Array:
